@@ -322,9 +322,13 @@ def kterm(e: ast.AST, atom: Callable[[ast.AST], Optional[str]]) -> tuple:
         return _flat("or", [kterm(x.value, atom) for x in e.elts])
     if isinstance(e, (ast.ListComp, ast.SetComp, ast.GeneratorExp)) and len(e.generators) == 1:
         gen = e.generators[0]
-        if isinstance(gen.target, ast.Name) and isinstance(e.elt, ast.Name) and e.elt.id == gen.target.id:
-            k = gen.target.id
-            base = kterm(gen.iter, atom)
+        g_target, g_iter = gen.target, gen.iter
+        if isinstance(g_target, ast.Tuple) and len(g_target.elts) == 2 and all(isinstance(x, ast.Name) for x in g_target.elts) and isinstance(g_iter, ast.Call) and call_name(g_iter) == "enumerate" and len(g_iter.args) == 1 and not g_iter.keywords \
+                and not any(isinstance(x, ast.Name) and x.id == g_target.elts[0].id for t in [e.elt] + list(gen.ifs) for x in ast.walk(t)):
+            g_target, g_iter = g_target.elts[1], g_iter.args[0]  # the positions are not used: the elements of the sequence
+        if isinstance(g_target, ast.Name) and isinstance(e.elt, ast.Name) and e.elt.id == g_target.id:
+            k = g_target.id
+            base = kterm(g_iter, atom)
             filters: Set[str] = set()
             for c in [c for t in gen.ifs for c in conjuncts(t, True)]:
                 if isinstance(c, ast.Compare) and len(c.ops) == 1 and isinstance(c.left, ast.Name) and c.left.id == k and isinstance(c.ops[0], (ast.In, ast.NotIn)):
@@ -438,6 +442,43 @@ def split_parallel_stores(fn: ast.AST) -> ast.AST:
     _attach_parents(new)
     new._parent = parent(fn)  # type: ignore[attr-defined]
     new._normal_of = getattr(fn, "_normal_of", fn)  # type: ignore[attr-defined]
+    return new
+
+
+def plain_traversal(fn: ast.AST) -> ast.AST:
+    """A copy of *fn* in which a loop that walks a sequence through positions walks its elements instead:
+    `for i in range(len(X)): k = X[i]; ..` and `for i, k in enumerate(X): ..` become `for k in X: ..` when the position
+    *i* is used for nothing else in the function and neither X nor k nor i is rebound or mutated in the loop (X a plain
+    name).  The elements visited and their order are the same; the rules then see one spelling of the traversal."""
+    new = clone(fn)
+    changed = False
+    loads: Dict[str, int] = {}
+    for n in ast.walk(new):
+        if isinstance(n, ast.Name) and isinstance(n.ctx, ast.Load):
+            loads[n.id] = loads.get(n.id, 0) + 1
+    for loop in [n for n in ast.walk(new) if isinstance(n, ast.For) and not n.orelse]:
+        it = loop.iter
+        stored = [x.id for st in loop.body for x in ast.walk(st) if isinstance(x, ast.Name) and isinstance(x.ctx, (ast.Store, ast.Del))]
+        mutated = {r for st in loop.body for x in ast.walk(st) for r in [_root_name(x.func.value) if isinstance(x, ast.Call) and isinstance(x.func, ast.Attribute) and x.func.attr in _MUT else _root_name(x.value) if isinstance(x, (ast.Subscript, ast.Attribute)) and isinstance(x.ctx, (ast.Store, ast.Del)) else None] if r}
+        if isinstance(loop.target, ast.Name) and isinstance(it, ast.Call) and call_name(it) == "range" and len(it.args) == 1 and not it.keywords and isinstance(it.args[0], ast.Call) and call_name(it.args[0]) == "len" and len(it.args[0].args) == 1 and isinstance(it.args[0].args[0], ast.Name) and loop.body:
+            i, X, first = loop.target.id, it.args[0].args[0].id, loop.body[0]
+            if (isinstance(first, ast.Assign) and len(first.targets) == 1 and isinstance(first.targets[0], ast.Name) and isinstance(first.value, ast.Subscript) and isinstance(first.value.value, ast.Name) and first.value.value.id == X
+                    and isinstance(first.value.slice, ast.Name) and first.value.slice.id == i and loads.get(i, 0) == 1 and X not in stored and X not in mutated and i not in stored and stored.count(first.targets[0].id) == 1 and len(loop.body) > 1):
+                loop.target = ast.copy_location(ast.Name(id=first.targets[0].id, ctx=ast.Store()), loop.target)
+                loop.iter = ast.copy_location(ast.Name(id=X, ctx=ast.Load()), it)
+                loop.body = loop.body[1:]
+                changed = True
+        elif isinstance(loop.target, ast.Tuple) and len(loop.target.elts) == 2 and all(isinstance(e, ast.Name) for e in loop.target.elts) and isinstance(it, ast.Call) and call_name(it) == "enumerate" and len(it.args) == 1 and not it.keywords:
+            i, k = loop.target.elts[0].id, loop.target.elts[1].id
+            if loads.get(i, 0) == 0 and i not in stored and i != k:
+                loop.target = ast.copy_location(ast.Name(id=k, ctx=ast.Store()), loop.target)
+                loop.iter = it.args[0]
+                changed = True
+    if not changed:
+        return fn
+    ast.fix_missing_locations(new)
+    _attach_parents(new)
+    new._parent = parent(fn)  # type: ignore[attr-defined]
     return new
 
 
@@ -848,7 +889,7 @@ def _only_designates_cell(n: ast.AST) -> bool:
     return False
 
 
-def per_node_roots(repo: Repo, loop: ast.For) -> List[Tuple[str, ast.AST]]:
+def per_node_roots(repo: Repo, loop: ast.For, compute: Optional[Tuple[str, ast.AST]] = None) -> List[Tuple[str, ast.AST]]:
     """(module rel, function) for every repo function called from the body of the node loop of execute(), plus the
     delta computation (its receiver is a local, so the call does not resolve by itself)."""
     omod = repo.module(ORCH)
@@ -858,13 +899,15 @@ def per_node_roots(repo: Repo, loop: ast.For) -> List[Tuple[str, ast.AST]]:
             for m, f in repo.resolve_call(omod, c):
                 if isinstance(f, FuncNode) and not any(f is o[1] for o in out):
                     out.append((m.rel, f))
-    dc = repo.maybe_func(DELTA, "DeltaCollector.compute")
-    if dc is not None:
-        out.append((DELTA, dc))
+    if compute is None:
+        dc = repo.maybe_func(DELTA, "DeltaCollector.compute")
+        compute = (DELTA, dc) if dc is not None else None
+    if compute is not None and not any(compute[1] is o[1] for o in out):
+        out.append(compute)
     return out
 
 
-def node_local_facts(repo: Repo, R: Report, rule: str, ex: ast.AST, loop: ast.For) -> None:
+def node_local_facts(repo: Repo, R: Report, rule: str, ex: ast.AST, loop: ast.For, compute: Optional[Tuple[str, ast.AST]] = None) -> None:
     """The record of node k is computed from node k (its processor, configuration, data and pre/post context).  The
     functions called while one node is handled (the body of the node loop of execute() and everything it reaches)
     therefore read no attribute of a long-lived object (`self.X` of the orchestrator, of a collector ..) that the
@@ -873,7 +916,7 @@ def node_local_facts(repo: Repo, R: Report, rule: str, ex: ast.AST, loop: ast.Fo
     depends on, a counter, a remembered view.  Objects constructed inside the loop body (the delta collector) are
     new for every node and are not long-lived."""
     omod = repo.module(ORCH)
-    roots = [(repo.module(rel), f) for rel, f in per_node_roots(repo, loop)]
+    roots = [(repo.module(rel), f) for rel, f in per_node_roots(repo, loop, compute)]
     clo = repo.call_graph_closure(roots, stop=lambda m, n: not m.rel.startswith(("semantiva/execution/", "semantiva/trace/")))
     region: List[Tuple[object, ast.AST, Optional[ast.AST]]] = [(omod, ex, loop)]
     for m, f, _path in sorted(clo.values(), key=lambda t: (t[0].rel, getattr(t[1], "lineno", 0))):
@@ -893,7 +936,7 @@ def node_local_facts(repo: Repo, R: Report, rule: str, ex: ast.AST, loop: ast.Fo
 
     # the top-most repo class is `ABC`-free: mro() lists repo classes only, so the last entry is the root of the family
     # an object constructed inside the loop body is new for every node: what is stored on it does not outlive the node
-    per_node_objects = {family(repo.module(rel), f) for rel, f in per_node_roots(repo, loop) if f.name == "__init__"}
+    per_node_objects = {family(repo.module(rel), f) for rel, f in per_node_roots(repo, loop, compute) if f.name == "__init__"}
     cells: Dict[Tuple[str, str], Tuple[ast.AST, str]] = {}
     for m, f, within in region:
         recv = _receiver(f)
@@ -938,12 +981,293 @@ def node_local_facts(repo: Repo, R: Report, rule: str, ex: ast.AST, loop: ast.Fo
             R.violation(rule, m.rel, qn, norm(stmt_of(n))[:110], f"`{recv}.{attr}` outlives the node (written by `{norm(site)[:70]}` in {writer}, on the per-node path) and is read while a node's record is computed: what the SER says about this node (required keys / checks, parameters, delta, digests) then depends on which nodes the same object handled before - e.g. a second node of the same processor class with another parameter placement inherits the first node's answer", getattr(n, "lineno", 0))
 
 
+# ---------------------------------------------------------------------------------------------------------
+# roles: the functions this check reasons about, located from execute() by what they do for the record
+# ---------------------------------------------------------------------------------------------------------
+_CHECK_CODES = {"pre_checks": "required_keys_present", "post_checks": "context_writes_realized"}
+_SUMMARY_KEYS = {"init_summaries": "input_data", "augment_summaries": "output_data"}
+
+
+def _stores_key(fn: ast.AST, key: str) -> List[ast.AST]:
+    """The values *fn* puts under the constant mapping key *key* (subscript store or display entry)."""
+    out: List[ast.AST] = [s.value for s in ast.walk(fn) if isinstance(s, ast.Assign) and any(isinstance(t, ast.Subscript) and is_const(t.slice, key) for t in s.targets)]
+    out += [v for d in ast.walk(fn) if isinstance(d, ast.Dict) for k, v in zip(d.keys, d.values) if is_const(k, key)]
+    return out
+
+
+class Roles:
+    """Where the code that fills each part of a SER lives *in this tree*.
+
+    Nothing is looked up by a qualified name except the public entry point `SemantivaOrchestrator.execute`: every other
+    function is reached by following calls (`repo.resolve_call`) from execute() along the value it contributes -
+    the function that constructs the `SERRecord`, the callee whose result pair becomes processor.parameters /
+    parameter_sources, the callees whose results become timing.started_at / finished_at, the callees that build the
+    check with code `required_keys_present` / `context_writes_realized`, that store the `input_data` / `output_data`
+    summaries, the callee that yields the pre-node view, the delta computation named by the delta provider.  A helper
+    that moved (method <-> module function, other module) or was renamed is found where it is now."""
+
+    def __init__(self, repo: Repo) -> None:
+        self.repo = repo
+        self.omod = repo.module(ORCH)
+        self.ex = repo.func(ORCH, EXECUTE)
+        self.at: Dict[str, Tuple[object, ast.AST]] = {}
+        self._nf: Dict[tuple, ast.AST] = {}
+        self._regions: Dict[int, List[Tuple[object, ast.AST]]] = {}
+        self.every_ex = _def_table(self.ex)[1]
+        self._discover()
+
+    # -- primitives --------------------------------------------------------------------------------------------
+    def callee(self, mod, call: ast.Call, scope: Optional[ast.AST] = None) -> Optional[Tuple[object, ast.AST]]:
+        """The repo function *call* (an expression of module *mod*) runs: for `self.m(..)` the method found along the
+        MRO (overrides in subclasses come after it), for a plain or dotted name the def it resolves to.  A call that was
+        produced by expanding locals (a detached copy) is resolved as if written in function *scope*."""
+        if scope is not None and not any(a is scope for a in ancestors(call)):
+            call = clone(call)
+            _attach_parents(call)
+            call._parent = scope  # type: ignore[attr-defined]
+        try:
+            t = self.repo.resolve_call(mod, call)
+        except AnalysisError:
+            raise
+        except Exception:
+            t = []
+        t = [(m, f) for m, f in t if isinstance(f, FuncNode)]
+        return t[0] if t else None
+
+    def region(self, mod, fn: ast.AST) -> List[Tuple[object, ast.AST]]:
+        """*fn* and the functions of its own module it reaches (the helpers its body may have been split into)."""
+        if id(fn) not in self._regions:
+            clo = self.repo.call_graph_closure([(mod, fn)], stop=lambda m, n: m is not mod)
+            self._regions[id(fn)] = [(m, f) for m, f, _p in clo.values() if m is mod and isinstance(f, FuncNode)]
+        return self._regions[id(fn)]
+
+    def has(self, role: str) -> bool:
+        return role in self.at
+
+    def fn(self, role: str) -> ast.AST:
+        if role not in self.at:
+            raise AnalysisError(f"execute(): the function in the role `{role}` was not found by following the calls of execute()")
+        return self.at[role][1]
+
+    def mod(self, role: str):
+        self.fn(role)
+        return self.at[role][0]
+
+    def rel(self, role: str) -> str:
+        return self.mod(role).rel
+
+    def qn(self, role: str) -> str:
+        return qualname_of(self.fn(role))
+
+    def name(self, role: str) -> Optional[str]:
+        return self.at[role][1].name if role in self.at else None
+
+    def keep(self) -> Tuple[str, ...]:
+        return tuple(sorted(set(KEEP) | {f.name for _m, f in self.at.values()}))
+
+    def nf(self, role: str, **opts) -> ast.AST:
+        """Normal form of the function in *role* (helpers that hold a role of their own are not inlined)."""
+        fn = self.fn(role)
+        keep = tuple(opts.pop("keep", ())) + self.keep()
+        key = (id(fn), keep, tuple(sorted(opts.items())))
+        if key not in self._nf:
+            self._nf[key] = normalize(self.repo, self.mod(role), plain_traversal(fn), keep=keep, **opts)
+        return self._nf[key]
+
+    def is_call(self, c: ast.AST, role: str) -> bool:
+        """*c* calls the function in *role* (whatever the receiver: `self.f(..)`, `f(..)`, `mod.f(..)`)."""
+        return isinstance(c, ast.Call) and role in self.at and call_attr(c) == self.at[role][1].name
+
+    def calls(self, scope: ast.AST, role: str) -> List[ast.Call]:
+        return [c for c in calls_in(scope) if self.is_call(c, role)]
+
+    def _set(self, role: str, found: List[Tuple[object, ast.AST]], what: str, required: bool = True) -> None:
+        """Bind *role*.  A value role (required=False: found by following a value of the record back to the calls that
+        produce it) with several producers is bound to the most frequent one (first on a tie): the rule of that value
+        then reports the uses that come from another function."""
+        distinct: List[Tuple[object, ast.AST]] = []
+        for m, f in found:
+            if not any(f is g for _m, g in distinct):
+                distinct.append((m, f))
+        if len(distinct) == 1:
+            self.at[role] = distinct[0]
+        elif len(distinct) > 1 and not required:
+            self.at[role] = max(distinct, key=lambda t: sum(1 for _m, f in found if f is t[1]))
+        elif len(distinct) > 1:
+            raise AnalysisError(f"execute(): {len(distinct)} different functions {what} ({', '.join(qualname_of(f) for _m, f in distinct)[:120]})")
+        elif required:
+            raise AnalysisError(f"execute(): no function called from execute() {what}")
+
+    def _from_unpack(self, v: Optional[ast.AST]) -> List[Tuple[ast.Call, Optional[int]]]:
+        """(call, index) for every binding `<local> = <call>[index]` (or tuple unpacking of the call) of local *v* of execute()."""
+        out: List[Tuple[ast.Call, Optional[int]]] = []
+
+        def follow(e: Optional[ast.AST], idx: Optional[int], depth: int) -> None:
+            # the original nodes are kept (no cloning): the calls found here are resolved in their own scope
+            if isinstance(e, ast.Call):
+                out.append((e, idx))
+            elif isinstance(e, ast.Subscript) and isinstance(e.slice, ast.Constant) and idx is None:
+                follow(e.value, e.slice.value, depth)
+            elif isinstance(e, ast.Name) and depth < 4:
+                for d in self.every_ex.get(e.id, []):
+                    follow(d, idx, depth + 1)
+
+        follow(v, None, 0)
+        return out
+
+    # -- discovery ---------------------------------------------------------------------------------------------
+    def _discover(self) -> None:
+        ex, omod = self.ex, self.omod
+        direct: List[Tuple[ast.Call, object, ast.AST]] = []
+        for c in calls_in(ex):
+            t = self.callee(omod, c)
+            if t is not None and t[1] is not ex:
+                direct.append((c, t[0], t[1]))
+
+        def writes(m, f, pred: Callable[[ast.AST], bool]) -> bool:
+            return any(pred(g) for _m, g in self.region(m, f))
+
+        # the record builder: constructs the SERRecord
+        self._set("record", [(m, f) for _c, m, f in direct if writes(m, f, lambda g: any(call_attr(x) == "SERRecord" for x in calls_in(g, include_nested=True)))], "constructs the SERRecord")
+        self.record_calls = [c for c, _m, f in direct if f is self.fn("record")]
+        mk = self.nf("record")
+        ser = [c for c in calls_in(mk) if call_attr(c) == "SERRecord"]
+        if not ser:
+            raise AnalysisError(f"{self.qn('record')}: the SERRecord(...) construction is not in the function's normal form")
+        self.ser_call = ser[0]
+        self.proc = expand(mk, kwarg(ser[0], "processor"))
+        self.p_par = dotted_name(dict_entry(self.proc, "parameters"))
+        self.p_src = dotted_name(dict_entry(self.proc, "parameter_sources"))
+        t = expand(mk, kwarg(ser[0], "timing"))
+        self.p_timing = t.id if isinstance(t, ast.Name) and t.id in all_params(mk) else None
+        # the parameter/source resolver: its result pair is what the record builder receives as parameters / sources
+        found = []
+        for c in self.record_calls:
+            b = bind_args(c, mk)
+            for pname in (self.p_par, self.p_src):
+                for call, _i in self._from_unpack(b.get(pname) if pname else None):
+                    t2 = self.callee(omod, call)
+                    if t2 is not None:
+                        found.append(t2)
+        self._set("resolve", found, "yields the (values, sources) pair handed to the record builder", required=False)
+        # timing helpers: their results are timing.started_at / finished_at
+        for role, key in (("start_timing", "started_at"), ("end_timing", "finished_at")):
+            found = []
+            for c in self.record_calls:
+                for v in dict_values(ex, bind_args(c, mk).get(self.p_timing) if self.p_timing else None, key) or []:
+                    for call, _i in self._from_unpack(v):
+                        t2 = self.callee(omod, call)
+                        if t2 is not None:
+                            found.append(t2)
+            self._set(role, found, f"yields timing.{key}", required=False)
+        # built-in check builders and summary builders, by the record entries they produce
+        for role, code in _CHECK_CODES.items():
+            self._set(role, [(m, f) for _c, m, f in direct if writes(m, f, lambda g, code=code: any(isinstance(d, ast.Dict) and is_const(dict_entry(d, "code"), code) for d in ast.walk(g)))], f"builds the check `{code}`")
+        for role, key in _SUMMARY_KEYS.items():
+            self._set(role, [(m, f) for _c, m, f in direct if f is not self.fn("record") and writes(m, f, lambda g, key=key: bool(_stores_key(g, key)))], f"stores summaries[{key!r}]")
+        # inside the check builders: the type-check entry (receives the code of the check) and the delta-list reader
+        found = []
+        for role in _CHECK_CODES:
+            for m, g in self.region(self.mod(role), self.fn(role)):
+                for c in calls_in(g, include_nested=True):
+                    if any(is_const(a, "input_type_ok") or is_const(a, "output_type_ok") for a in list(c.args) + [k.value for k in c.keywords]):
+                        t2 = self.callee(m, c)
+                        if t2 is not None:
+                            found.append(t2)
+        self._set("type_entry", found, "builds the input_type_ok / output_type_ok entries")
+        post = self.fn("post_checks")
+        pp = pos_params(post)
+        found = []
+        if len(pp) >= 4:
+            for m, g in self.region(self.mod("post_checks"), post):
+                for c in calls_in(g, include_nested=True):
+                    if len(c.args) == 1 and not c.keywords and dotted_name(c.args[0]) == pp[3] and g is post:
+                        t2 = self.callee(m, c)
+                        if t2 is not None and t2[1] is not self.fn("type_entry"):
+                            found.append(t2)
+        self._set("delta_lists", found, "reads the created / updated lists of the context delta", required=False)
+        # inside the summary builders: the data / context summary producers
+        for role, key in (("data_summary", "input_data"), ("context_summary", "pre_context")):
+            found = []
+            for m, g in self.region(self.mod("init_summaries"), self.fn("init_summaries")):
+                for v in _stores_key(g, key):
+                    for x in (assigned_value(g, v.id) if isinstance(v, ast.Name) else [v]):
+                        t2 = self.callee(m, x) if isinstance(x, ast.Call) else None
+                        if t2 is not None:
+                            found.append(t2)
+            self._set(role, found, f"produces summaries[{key!r}]")
+        # the delta provider handed to the hooks, the delta computation it names, the pre-node view, the snapshot function
+        prov = [k.value for c in calls_in(ex) if call_attr(c) == "SERHooks" for k in c.keywords if k.arg == "context_delta_provider"]
+        if prov and isinstance(prov[0], ast.Name) and isinstance(_def_table(ex)[0].get(prov[0].id), ast.Lambda):
+            prov = [_def_table(ex)[0][prov[0].id]]  # a local that names the lambda (bound once)
+        body = prov[0].body if prov and isinstance(prov[0], ast.Lambda) else None
+        if prov and isinstance(prov[0], ast.Name):
+            pdef = next((n for n in ast.walk(ex) if isinstance(n, FuncNode) and n is not ex and n.name == prov[0].id), None)
+            rv = [n.value for n in walk_no_nested(pdef) if isinstance(n, ast.Return)] if pdef is not None else []
+            body = rv[0] if len(rv) == 1 else None
+        self.prov_body = body if isinstance(body, ast.Call) else None
+        self.collector: Optional[ast.AST] = None  # the local object whose state the delta computation uses
+        self.collector_class: Optional[ast.ClassDef] = None
+        if self.prov_body is not None:
+            t2 = self.callee(omod, self.prov_body)
+            f = self.prov_body.func
+            if t2 is not None:
+                self.at["compute"] = t2
+            elif isinstance(f, ast.Attribute) and isinstance(f.value, ast.Name):
+                # a method of a local object: the class is the one every binding of the local constructs
+                k = self._class_of_local(f.value)
+                meth = self.repo.method(k[0], k[1], f.attr) if k is not None else None
+                if meth is not None and isinstance(meth[1], FuncNode):
+                    self.at["compute"] = meth
+                    self.collector, self.collector_class = f.value, k[1]
+        if "compute" not in self.at:
+            raise AnalysisError("execute(): the context delta provider `<collector>.<compute>(pre, post, ..)` handed to the hooks was not found")
+        comp = self.fn("compute")
+        cpp = pos_params(comp)
+        if self.collector is None and cpp:
+            # a module-level computation that takes the collector it works for as its first argument
+            first = bind_args(self.prov_body, comp).get(cpp[0])
+            k = self._class_of_local(first)
+            if k is not None:
+                self.collector, self.collector_class = first, k[1]
+                cpp = cpp[1:]
+        self.cpp = cpp
+        if len(cpp) < 2:
+            raise AnalysisError(f"{self.qn('compute')}: pre/post parameters vanished")
+        pb = bind_args(self.prov_body, comp)
+        self.pb = pb
+        self.PRE = pb[cpp[0]].id if isinstance(pb.get(cpp[0]), ast.Name) else None
+        if self.PRE is None:
+            raise AnalysisError("execute(): the context delta provider `<collector>.compute(pre, post, ..)` with a named pre-node view was not found")
+        # the snapshot function: what every binding of the pre-node view calls
+        found = []
+        for d in self.every_ex.get(self.PRE, []):
+            t2 = self.callee(omod, d) if isinstance(d, ast.Call) else None
+            if t2 is not None:
+                found.append(t2)
+        self._set("snapshot", found, "yields the pre-node view", required=False)
+
+    def _class_of_local(self, v: Optional[ast.AST]) -> Optional[Tuple[object, ast.ClassDef]]:
+        """The repo class every binding of local *v* of execute() constructs."""
+        if not isinstance(v, ast.Name):
+            return None
+        found: List[Tuple[object, ast.ClassDef]] = []
+        for d in self.every_ex.get(v.id, []):
+            r = self.repo.resolve_name(self.omod, d.func, d) if isinstance(d, ast.Call) and isinstance(d.func, (ast.Name, ast.Attribute)) else None
+            if r is None or not isinstance(r[1], ast.ClassDef):
+                return None
+            found.append(r)
+        return found[0] if found and all(c[1] is found[0][1] for c in found) else None
+
+
 def run(repo: Repo, R: Report) -> None:
     R.assume(
         "datetime.now(timezone.utc) / utcnow() read the true UTC instant; time.time() does not step backwards within one node (wall-clock steps are outside the quantifier)",
         "serialize()/canonical_json_bytes() are functions of content for framework data types (repr last resort is content-determined for objects with __dict__)",
     )
     R.undecided("that processor.parameters *values* equal what was passed for arbitrary processors (channel and source table are pinned, not values)", "non-decreasing timestamps under a wall clock stepping backwards")
+
+    A = Roles(repo)
 
     # ------------------------------------------------------------------ D1 UTC
     r_utc = R.rule("C07-D1-utc-timestamps", "every string labelled with the UTC designator Z is produced from a UTC-anchored clock read; SER timing and driver timestamps come from such producers", 4)
@@ -984,36 +1308,42 @@ def run(repo: Repo, R: Report) -> None:
     if n_z < 2:
         raise AnalysisError(f"only {n_z} Z-labelled timestamp producer(s) found (2 confirmed by reading)")
     # SER timing flows from the producers
-    for helper, idx in (("_start_timing", 2), ("_end_timing", 0)):
-        f = nfunc(repo, ORCH, O + helper, keep=KEEP + tuple(sorted(producers)))
+    ex = A.ex
+    mk = A.nf("record")
+    _s_ex, every_ex = _def_table(ex)
+
+    def unpack_of(v: Optional[ast.AST], role: str, pos: int, exclusive: bool = True) -> bool:
+        """Every binding of local *v* in execute() is element *pos* of the result of a call of the function in *role*
+        (not exclusive: or a constant placeholder)."""
+        defs = [expand(ex, d) for d in every_ex.get(v.id, [])] if isinstance(v, ast.Name) else []
+        good = [d for d in defs if isinstance(d, ast.Subscript) and A.is_call(d.value, role) and is_const(d.slice, pos)]
+        inert = [d for d in defs if isinstance(d, ast.Constant)]
+        return bool(good) and len(good) + (0 if exclusive else len(inert)) == len(defs)
+
+    def timing_entry_ok(c: ast.Call, key: str, role: str, pos: int, exclusive: bool) -> bool:
+        """Entry *key* of the timing mapping handed to the record builder (a display or a local naming one) is,
+        whenever present, element *pos* of the result of the timing helper in *role*."""
+        vals = dict_values(ex, bind_args(c, mk).get(A.p_timing) if A.p_timing else None, key)
+        return bool(vals) and all(unpack_of(v, role, pos, exclusive) for v in vals)
+
+    def status_of(c: ast.Call) -> str:
+        return str(getattr(kwarg(c, "status"), "value", "?"))
+
+    for c in A.record_calls:
+        ok = timing_entry_ok(c, "started_at", "start_timing", 2, False) and timing_entry_ok(c, "finished_at", "end_timing", 0, True)
+        R.check(ok, r_utc, ORCH, EXECUTE, f"timing of SER ({status_of(c)}) from _start_timing/_end_timing", "SER timing strings do not come from the timing helpers", c.lineno)
+    for role, idx in (("start_timing", 2), ("end_timing", 0)):
+        if not A.has(role):
+            continue  # reported above: the record's timing strings do not come from a timing helper
+        f = A.nf(role, keep=tuple(sorted(producers)))
+        helper = A.name(role)
         rets = [expand(f, n.value) for n in walk_no_nested(f) if isinstance(n, ast.Return)]
         ok = bool(rets)
         for rv in rets:
             e = expand(f, rv.elts[idx]) if isinstance(rv, ast.Tuple) and len(rv.elts) > idx else None
             vals = every_of(f, e)
             ok = ok and bool(vals) and all(isinstance(v, ast.Call) and call_attr(v) in producers for v in vals)
-        R.check(ok, r_utc, ORCH, O + helper, f"{helper}() iso element comes from a UTC producer", "SER started_at/finished_at is not produced by the UTC timestamp helper", f.lineno)
-    ex = repo.func(ORCH, EXECUTE)
-    _s_ex, every_ex = _def_table(ex)
-
-    def unpack_of(v: Optional[ast.AST], helper: str, pos: int, exclusive: bool = True) -> bool:
-        """Every binding of local *v* in execute() is element *pos* of a `<helper>()` result (not exclusive:
-        or a constant placeholder)."""
-        defs = [expand(ex, d) for d in every_ex.get(v.id, [])] if isinstance(v, ast.Name) else []
-        good = [d for d in defs if isinstance(d, ast.Subscript) and isinstance(d.value, ast.Call) and call_attr(d.value) == helper and is_const(d.slice, pos)]
-        inert = [d for d in defs if isinstance(d, ast.Constant)]
-        return bool(good) and len(good) + (0 if exclusive else len(inert)) == len(defs)
-
-    def timing_entry_ok(c: ast.Call, key: str, helper: str, pos: int, exclusive: bool) -> bool:
-        """Entry *key* of the `timing` mapping handed to the record builder (a display or a local naming one) is,
-        whenever present, element *pos* of a `<helper>()` result."""
-        vals = dict_values(ex, kwarg(c, "timing"), key)
-        return bool(vals) and all(unpack_of(v, helper, pos, exclusive) for v in vals)
-
-    for c in calls_in(ex):
-        if call_attr(c) == "_make_ser_record":
-            ok = timing_entry_ok(c, "started_at", "_start_timing", 2, False) and timing_entry_ok(c, "finished_at", "_end_timing", 0, True)
-            R.check(ok, r_utc, ORCH, EXECUTE, f"timing of SER ({getattr(kwarg(c, 'status'), 'value', '?')}) from _start_timing/_end_timing", "SER timing strings do not come from the timing helpers", c.lineno)
+        R.check(ok, r_utc, A.rel(role), A.qn(role), f"{helper}() iso element comes from a UTC producer", "SER started_at/finished_at is not produced by the UTC timestamp helper", f.lineno)
     for qn in ("JsonlTraceDriver.on_pipeline_start", "JsonlTraceDriver.on_pipeline_end", "JsonlTraceDriver.on_run_space_start", "JsonlTraceDriver.on_run_space_end"):
         f = repo.func(JSONL, qn)
         ts = [v for n in walk_no_nested(f) if isinstance(n, ast.Dict) for k, v in zip(n.keys, n.values) if isinstance(k, ast.Constant) and k.value == "timestamp"]
@@ -1024,7 +1354,6 @@ def run(repo: Repo, R: Report) -> None:
         R.check(ok, r_utc, JSONL, qn, "record.timestamp from the UTC producer", "lifecycle record timestamp is not produced by the UTC timestamp helper", f.lineno)
 
     # ------------------------------------------------------------------ roles in execute()
-    ex = repo.func(ORCH, EXECUTE)
     g = CFG(ex)
     sub = next((n for n in g.nodes if n.ast is not None and n.kind == "stmt" and any(call_attr(c) == "_submit_and_wait" for c in calls_in(n.ast))), None)
     if sub is None:
@@ -1045,7 +1374,8 @@ def run(repo: Repo, R: Report) -> None:
         raise AnalysisError("execute(): node loop not found")
 
     def is_snapshot(e: Optional[ast.AST]) -> bool:
-        return isinstance(e, ast.Call) and call_attr(e) == "_context_snapshot" and len(e.args) == 1 and dotted_name(e.args[0]) == CTX
+        """*e* calls the snapshot function (the one that yields the pre-node view) on the context variable."""
+        return A.is_call(e, "snapshot") and len(e.args) + len(e.keywords) == 1 and dotted_name((list(e.args) + [k.value for k in e.keywords])[0]) == CTX
 
     def use_node(c: ast.AST) -> Optional[int]:
         ids = g.nodes_for(stmt_of(c))
@@ -1122,37 +1452,26 @@ def run(repo: Repo, R: Report) -> None:
         defs = reaching_defs(g, DATA, use) if use is not None else []
         return bool(defs) and all(after_run(d.id) for d in defs)
 
-    # the delta provider names the pre-node snapshot
-    comp_raw = repo.func(DELTA, "DeltaCollector.compute")
-    cpp = pos_params(comp_raw)
-    if len(cpp) < 2:
-        raise AnalysisError("DeltaCollector.compute: pre/post parameters vanished")
-    PRE_P, POST_P = cpp[0], cpp[1]
-    prov = [k.value for c in calls_in(ex) if call_attr(c) == "SERHooks" for k in c.keywords if k.arg == "context_delta_provider"]
-    if prov and isinstance(prov[0], ast.Name) and isinstance(_def_table(ex)[0].get(prov[0].id), ast.Lambda):
-        prov = [_def_table(ex)[0][prov[0].id]]  # a local that names the lambda (bound once)
-    prov_body = prov[0].body if prov and isinstance(prov[0], ast.Lambda) else None
-    if prov and isinstance(prov[0], ast.Name):
-        pdef = next((n for n in ast.walk(ex) if isinstance(n, FuncNode) and n is not ex and n.name == prov[0].id), None)
-        rv = [n.value for n in walk_no_nested(pdef) if isinstance(n, ast.Return)] if pdef is not None else []
-        prov_body = rv[0] if len(rv) == 1 else None
-    pb = bind_args(prov_body, comp_raw) if isinstance(prov_body, ast.Call) and call_attr(prov_body) == "compute" else {}
-    PRE = pb[PRE_P].id if isinstance(pb.get(PRE_P), ast.Name) else None
-    if PRE is None:
-        raise AnalysisError("execute(): the context delta provider `<collector>.compute(pre, post, ..)` with a named pre-node view was not found")
+    # the delta provider names the pre-node snapshot (located with the roles)
+    comp_raw = A.fn("compute")
+    PRE_P, POST_P = A.cpp[0], A.cpp[1]
+    prov_body, pb, PRE = A.prov_body, A.pb, A.PRE
 
     # ------------------------------------------------------------------ D2 provenance
     r_prov = R.rule("C07-D2-parameter-provenance", "the SER labels every processing parameter with the channel the run-time chain picks: node config, else context (for every processing parameter name, exactly when the key is in the pre-node context), else the processor's declared default; later steps never overwrite earlier ones; values and labels reach processor.parameters / parameter_sources unswapped", 10)
-    RPQ = O + "_resolve_params_with_sources"
-    rp = split_parallel_stores(nfunc(repo, ORCH, RPQ, keep=KEEP, loops=False))
+    if not A.has("resolve"):
+        R.violation(r_prov, ORCH, EXECUTE, norm(stmt_of(A.record_calls[0]))[:110] if A.record_calls else "", "processor.parameters / parameter_sources handed to the record builder are not the result pair of a parameter/source resolution done for this node", ex.lineno)
+        raise AnalysisError("execute(): no call yields the (values, sources) pair handed to the record builder")
+    RPQ, RREL = A.qn("resolve"), A.rel("resolve")
+    rp = split_parallel_stores(A.nf("resolve", loops=False))
     rpp = pos_params(rp)
     if len(rpp) < 3:
-        raise AnalysisError("_resolve_params_with_sources: parameters vanished")
+        raise AnalysisError(f"{RPQ}: parameters vanished")
     NODE_P, CTX_P = rpp[0], rpp[2]
     pair = [expand(rp, r.value) for r in walk_no_nested(rp) if isinstance(r, ast.Return)]
     pair = [v for v in pair if isinstance(v, ast.Tuple) and len(v.elts) == 2 and all(isinstance(e, ast.Name) for e in v.elts)]
     if not pair:
-        raise AnalysisError("_resolve_params_with_sources: `return <values>, <sources>` not found")
+        raise AnalysisError(f"{RPQ}: `return <values>, <sources>` not found")
     VAL, SRC = pair[0].elts[0].id, pair[0].elts[1].id
 
     def sub_store(n: ast.AST, base: str) -> Optional[ast.Subscript]:
@@ -1167,16 +1486,37 @@ def run(repo: Repo, R: Report) -> None:
         return v.value if isinstance(v, ast.Constant) and v.value in ("node", "context", "default") else None
 
     mislabel = [n for n in walk_no_nested(rp) if sub_store(n, VAL) is not None and label_of(n) is not None]
-    R.check(bool(lab_stores) and all(label_of(s) is not None for s in lab_stores) and not mislabel, r_prov, ORCH, RPQ, "return <values>, <sources>: the second map receives the channel labels", "the returned pair is not (values, channel labels in {node, context, default})", rp.lineno)
+    R.check(bool(lab_stores) and all(label_of(s) is not None for s in lab_stores) and not mislabel, r_prov, RREL, RPQ, "return <values>, <sources>: the second map receives the channel labels", "the returned pair is not (values, channel labels in {node, context, default})", rp.lineno)
     top = {id(x): i for i, st in enumerate(rp.body) for x in ast.walk(st)}
     order = sorted(((top.get(id(s), 0), s.lineno, label_of(s), s) for s in lab_stores), key=lambda t: t[:2])
     labels = [o[2] for o in order]
     first_ctx = labels.index("context") if "context" in labels else -1
     last_ctx = max((i for i, l in enumerate(labels) if l == "context"), default=-1)
     first_def = min((i for i, l in enumerate(labels) if l == "default"), default=-1)
-    R.check("node" in labels and first_ctx > labels.index("node") and first_def > last_ctx >= 0, r_prov, ORCH, RPQ, "label order node, context, default", f"labels are not assigned in the order node, context, default (found {labels})", rp.lineno)
+    R.check("node" in labels and first_ctx > labels.index("node") and first_def > last_ctx >= 0, r_prov, RREL, RPQ, "label order node, context, default", f"labels are not assigned in the order node, context, default (found {labels})", rp.lineno)
     g_rp = CFG(rp)
     default_from_table = False
+    rmod = A.mod("resolve")
+
+    def reads_declared_table(e: ast.AST) -> bool:
+        """*e* contains a call `<f>(<node>.processor)` of a repo function that reads the processor's metadata (the
+        declared parameter table: `get_metadata()['parameters']`), whatever the receiver or name of <f>."""
+        for c in [c for c in ast.walk(expand(rp, e)) if isinstance(c, (ast.Call, ast.Attribute))]:
+            # the table read in place (the helper's body inlined): `<node>.processor.get_metadata` / getattr(.., 'get_metadata', ..)
+            if isinstance(c, ast.Attribute):
+                if c.attr == "get_metadata" and txt(expand(rp, c.value)) == f"{NODE_P}.processor":
+                    return True
+                continue
+            if call_name(c) == "getattr" and len(c.args) >= 2 and is_const(c.args[1], "get_metadata") and txt(expand(rp, c.args[0])) == f"{NODE_P}.processor":
+                return True
+            args = list(c.args) + [k.value for k in c.keywords]
+            if len(args) != 1 or txt(expand(rp, args[0])) != f"{NODE_P}.processor":
+                continue
+            t = A.callee(rmod, c, rp)
+            if t is not None and any(is_const(x, "get_metadata") or (isinstance(x, ast.Attribute) and x.attr == "get_metadata") for _m, h in A.region(*t) for x in ast.walk(h)):
+                return True
+        return False
+
     for _i, _ln, lab, s in order:
         if lab not in ("context", "default"):
             continue
@@ -1184,48 +1524,47 @@ def run(repo: Repo, R: Report) -> None:
         ids = g_rp.nodes_for(s)
         conds = [txt(c) for c in dominating_conditions(g_rp, rp, ids[0])] if ids else []
         a_first = {f"{K} not in {VAL}", f"{K} not in {SRC}", f"{K} not in {VAL}.keys()", f"{K} not in {SRC}.keys()"}
-        R.check(any(c in a_first for c in conds), r_prov, ORCH, RPQ, f"{lab} label [first writer wins]", f"the {lab} step can overwrite a label assigned by a higher-precedence channel (no `{K} not in {VAL}` guard dominates `{norm(s)}`)", s.lineno)
+        R.check(any(c in a_first for c in conds), r_prov, RREL, RPQ, f"{lab} label [first writer wins]", f"the {lab} step can overwrite a label assigned by a higher-precedence channel (no `{K} not in {VAL}` guard dominates `{norm(s)}`)", s.lineno)
         holder = next((lst for lst in (getattr(parent(s), f, None) for f in ("body", "orelse", "finalbody")) if isinstance(lst, list) and s in lst), [])
         vstores = [n for n in holder if sub_store(n, VAL) is not None and ast.unparse(sub_store(n, VAL).slice) == K]
         if lab == "context":
             a_ctx = {f"{K} in {CTX_P}", f"{K} in {CTX_P}.keys()"}
-            R.check(any(c in a_ctx for c in conds), r_prov, ORCH, RPQ, "context label [present in context]", f"context label assigned without testing that the key is in the pre-node context (`{K} in {CTX_P}`)", s.lineno)
+            R.check(any(c in a_ctx for c in conds), r_prov, RREL, RPQ, "context label [present in context]", f"context label assigned without testing that the key is in the pre-node context (`{K} in {CTX_P}`)", s.lineno)
             extra = [c for c in conds if c not in a_first and c not in a_ctx]
-            R.check(not extra, r_prov, ORCH, RPQ, "context label [exactly when present]", f"the context step is narrowed by `{' and '.join(extra)[:90]}`: the run-time chain takes every key that is in the context (whatever its value), so such a parameter is passed from the context but recorded with another source or not at all", s.lineno)
+            R.check(not extra, r_prov, RREL, RPQ, "context label [exactly when present]", f"the context step is narrowed by `{' and '.join(extra)[:90]}`: the run-time chain takes every key that is in the context (whatever its value), so such a parameter is passed from the context but recorded with another source or not at all", s.lineno)
             lp = next((a for a in ancestors(s) if isinstance(a, ast.For)), None)
             # the loop domain is computed from the getter of this node's processor, read here or in a helper
             covers = lp is not None and f"{NODE_P}.processor" in getter_owners(repo, rp, lp.iter)
-            R.check(covers, r_prov, ORCH, RPQ, "context label [domain]", "the context step does not range over all processing parameter names: a defaulted parameter overridden by context is never labelled `context` (and is missing from processor.parameters)", s.lineno)
+            R.check(covers, r_prov, RREL, RPQ, "context label [domain]", "the context step does not range over all processing parameter names: a defaulted parameter overridden by context is never labelled `context` (and is missing from processor.parameters)", s.lineno)
             reads = {f"{CTX_P}[{K}]", f"{CTX_P}.get({K})"}
             ok = bool(vstores) and all(any(ast.unparse(x) in reads for x in ast.walk(expand(rp, v.value))) for v in vstores)
-            R.check(ok, r_prov, ORCH, RPQ, "context value = <pre-node view>[k]", "the value recorded for a context-sourced parameter is not read from the pre-node context", s.lineno)
+            R.check(ok, r_prov, RREL, RPQ, "context value = <pre-node view>[k]", "the value recorded for a context-sourced parameter is not read from the pre-node context", s.lineno)
         if lab == "default":
-            if any(f"self._parameter_defaults({NODE_P}.processor)" in " ;; ".join(txt(expand(rp, x)) for x in closure(rp, v.value)) for v in vstores):
+            if any(reads_declared_table(x) for v in vstores for x in closure(rp, v.value)):
                 default_from_table = True
-    R.check(default_from_table, r_prov, ORCH, RPQ, "defaults from _parameter_defaults(node.processor)", "no default step reads the processor's declared parameter table", rp.lineno)
+    R.check(default_from_table, r_prov, RREL, RPQ, "defaults from _parameter_defaults(node.processor)", "no default step reads the processor's declared parameter table", rp.lineno)
     # call site passes this node and its pre-node snapshot; the pair reaches the record unswapped
-    rcall = next((c for c in calls_in(ex) if call_attr(c) == "_resolve_params_with_sources"), None)
-    rb = bind_args(rcall, rp) if rcall is not None else {}
-    ok = dotted_name(rb.get(NODE_P)) == NODE and dotted_name(rb.get(CTX_P)) == PRE
+    rcalls = A.calls(ex, "resolve")
+    ok = bool(rcalls)
+    for rcall in rcalls:
+        rb = bind_args(rcall, rp)
+        ok = ok and dotted_name(rb.get(NODE_P)) == NODE and dotted_name(rb.get(CTX_P)) == PRE
     R.check(ok, r_prov, ORCH, EXECUTE, "_resolve_params_with_sources(<node>, .., <pre-node view>, ..)", "provenance is not reconstructed from this node and its pre-node context", ex.lineno)
-    mk = nfunc(repo, ORCH, O + "_make_ser_record", keep=KEEP)
-    ser_calls = [c for c in calls_in(mk) if call_attr(c) == "SERRecord"]
-    proc = expand(mk, kwarg(ser_calls[0], "processor")) if ser_calls else None
-    p_par, p_src = dotted_name(dict_entry(proc, "parameters")), dotted_name(dict_entry(proc, "parameter_sources"))
-    for c in calls_in(ex):
-        if call_attr(c) == "_make_ser_record":
-            ok = bool(p_par) and bool(p_src) and p_par in all_params(mk) and p_src in all_params(mk)
-            for pname, pos in ((p_par, 0), (p_src, 1)):
-                v = bind_args(c, mk).get(pname) if pname else None
-                ok = ok and unpack_of(v, "_resolve_params_with_sources", pos)
-            R.check(ok, r_prov, ORCH, EXECUTE, f"SER ({getattr(kwarg(c, 'status'), 'value', '?')}): processor.parameters / parameter_sources = the resolved (values, sources) pair", "processor.parameters / parameter_sources are not the (values, sources) pair reconstructed for this node", c.lineno)
+    ser_calls = [A.ser_call]
+    proc, p_par, p_src = A.proc, A.p_par, A.p_src
+    for c in A.record_calls:
+        ok = bool(p_par) and bool(p_src) and p_par in all_params(mk) and p_src in all_params(mk)
+        for pname, pos in ((p_par, 0), (p_src, 1)):
+            v = bind_args(c, mk).get(pname) if pname else None
+            ok = ok and unpack_of(v, "resolve", pos)
+        R.check(ok, r_prov, ORCH, EXECUTE, f"SER ({status_of(c)}): processor.parameters / parameter_sources = the resolved (values, sources) pair", "processor.parameters / parameter_sources are not the (values, sources) pair reconstructed for this node", c.lineno)
 
     # ------------------------------------------------------------------ D3 checks
     r_chk = R.rule("C07-D3-check-polarity", "built-in checks report PASS exactly when the condition holds, on the right inputs (pre snapshot / input data, post snapshot taken after the node ran / output data)", 10)
-    pre = nfunc(repo, ORCH, O + "_build_pre_checks", keep=KEEP, loops=True)
-    post = nfunc(repo, ORCH, O + "_build_post_checks", keep=KEEP, loops=True)
-    tce = nfunc(repo, ORCH, O + "_type_check_entry", keep=KEEP)
-    xdl = repo.func(ORCH, O + "_extract_context_delta_lists")
+    pre = A.nf("pre_checks", loops=True)
+    post = A.nf("post_checks", loops=True)
+    tce = A.nf("type_entry")
+    PREQ, POSTQ, TCEQ = A.qn("pre_checks"), A.qn("post_checks"), A.qn("type_entry")
 
     def check_dict(fn: ast.AST, code: str) -> Optional[ast.AST]:
         for n in ast.walk(fn):
@@ -1253,19 +1592,19 @@ def run(repo: Repo, R: Report) -> None:
 
     prep, postp = pos_params(pre), pos_params(post)
     if len(prep) < 4 or len(postp) < 4:
-        raise AnalysisError("_build_pre_checks/_build_post_checks: parameters vanished")
+        raise AnalysisError(f"{PREQ}/{POSTQ}: parameters vanished")
     m_pre = pass_iff_empty(pre, "required_keys_present")
-    R.check(m_pre is not None, r_chk, ORCH, O + "_build_pre_checks", "required_keys_present: PASS iff the missing list is empty", "required_keys_present does not report PASS exactly when the list of missing keys is empty", pre.lineno)
+    R.check(m_pre is not None, r_chk, A.rel("pre_checks"), PREQ, "required_keys_present: PASS iff the missing list is empty", "required_keys_present does not report PASS exactly when the list of missing keys is empty", pre.lineno)
     want = ("diff", ("K", "required"), ("K", "pre-view"))
     got = kterm(m_pre, name_atoms({prep[3]: "required", prep[1]: "pre-view"})) if m_pre is not None else ("?", "")
-    R.check(got == want, r_chk, ORCH, O + "_build_pre_checks", "missing = required keys - keys of the context view", f"pre-check `missing` is not (required keys) minus (keys of the pre snapshot): it is {kshow(got)[:110]}", pre.lineno)
+    R.check(got == want, r_chk, A.rel("pre_checks"), PREQ, "missing = required keys - keys of the context view", f"pre-check `missing` is not (required keys) minus (keys of the pre snapshot): it is {kshow(got)[:110]}", pre.lineno)
     m_post = pass_iff_empty(post, "context_writes_realized")
-    R.check(m_post is not None, r_chk, ORCH, O + "_build_post_checks", "context_writes_realized: PASS iff the missing list is empty", "context_writes_realized does not report PASS exactly when the list of missing keys is empty", post.lineno)
+    R.check(m_post is not None, r_chk, A.rel("post_checks"), POSTQ, "context_writes_realized: PASS iff the missing list is empty", "context_writes_realized does not report PASS exactly when the list of missing keys is empty", post.lineno)
 
     def post_atom(e: ast.AST) -> Optional[str]:
         if isinstance(e, ast.Name) and e.id == postp[1]:
             return "post-view"
-        if isinstance(e, ast.Subscript) and isinstance(e.value, ast.Call) and call_attr(e.value) == "_extract_context_delta_lists" and len(e.value.args) == 1 and dotted_name(e.value.args[0]) == postp[3] and isinstance(e.slice, ast.Constant):
+        if isinstance(e, ast.Subscript) and A.is_call(e.value, "delta_lists") and len(e.value.args) == 1 and dotted_name(e.value.args[0]) == postp[3] and isinstance(e.slice, ast.Constant):
             return {0: "created", 1: "updated"}.get(e.slice.value)
         if isinstance(e, ast.Attribute) and dotted_name(e.value) == postp[3] and e.attr in ("created_keys", "updated_keys"):
             return e.attr[:-5]
@@ -1273,18 +1612,20 @@ def run(repo: Repo, R: Report) -> None:
 
     want = ("diff", ("or", frozenset({("K", "created"), ("K", "updated")})), ("K", "post-view"))
     got = kterm(m_post, post_atom) if m_post is not None else ("?", "")
-    R.check(got == want, r_chk, ORCH, O + "_build_post_checks", "missing = (created | updated) - keys of the context view", f"post-check `missing` is not (created ∪ updated) minus (keys of the post snapshot): it is {kshow(got)[:110]}", post.lineno)
-    xr_all = [x for r in walk_no_nested(xdl) if isinstance(r, ast.Return) for x in every_of(xdl, expand(xdl, r.value))]
-    xr = [x for x in xr_all if isinstance(x, ast.Tuple) and len(x.elts) == 2]
-    ok = bool(xr) and len(xr) == len(xr_all)
-    for tup in xr:
-        c0, c1 = closure_text(xdl, tup.elts[0]), closure_text(xdl, tup.elts[1])
-        ok = ok and "created" in c0 and "updated" not in c0 and "updated" in c1 and "created" not in c1
-    R.check(ok, r_chk, ORCH, O + "_extract_context_delta_lists", "returns (created keys, updated keys)", "the delta lists handed to the post-check are swapped or mixed", xdl.lineno)
+    R.check(got == want, r_chk, A.rel("post_checks"), POSTQ, "missing = (created | updated) - keys of the context view", f"post-check `missing` is not (created ∪ updated) minus (keys of the post snapshot): it is {kshow(got)[:110]}", post.lineno)
+    if A.has("delta_lists"):
+        xdl = A.fn("delta_lists")
+        xr_all = [x for r in walk_no_nested(xdl) if isinstance(r, ast.Return) for x in every_of(xdl, expand(xdl, r.value))]
+        xr = [x for x in xr_all if isinstance(x, ast.Tuple) and len(x.elts) == 2]
+        ok = bool(xr) and len(xr) == len(xr_all)
+        for tup in xr:
+            c0, c1 = closure_text(xdl, tup.elts[0]), closure_text(xdl, tup.elts[1])
+            ok = ok and "created" in c0 and "updated" not in c0 and "updated" in c1 and "created" not in c1
+        R.check(ok, r_chk, A.rel("delta_lists"), A.qn("delta_lists"), "returns (created keys, updated keys)", "the delta lists handed to the post-check are swapped or mixed", xdl.lineno)
     # type check polarity: FAIL exactly when a type is declared and the value is not an instance of it
     tp = pos_params(tce)
     if len(tp) < 3:
-        raise AnalysisError("_type_check_entry: parameters vanished")
+        raise AnalysisError(f"{TCEQ}: parameters vanished")
     EXP_P, VAL_P = tp[1], tp[2]
     # every way the entry's result gets its value, with the conditions under which that value is the final one
     g_t = CFG(tce)
@@ -1336,22 +1677,33 @@ def run(repo: Repo, R: Report) -> None:
             leaves = None
             break
         collect(expand(tce, dict_entry(d, "result")), dominating_conditions(g_t, tce, rid[0]), rid[0])
-    nexp = f"self._normalize_expected({EXP_P})"
+    # the declared type enters the conditions through one repo function applied to the `expected` parameter (it turns
+    # None / a type / a tuple of types into a tuple or None), whatever its name and receiver
+    norm_calls = {ast.unparse(c) for c in ast.walk(tce) if isinstance(c, ast.Call) and len(c.args) == 1 and not c.keywords and dotted_name(c.args[0]) == EXP_P and A.callee(A.mod("type_entry"), c, tce) is not None}
+
+    def canon(text: str) -> str:
+        for nc in sorted(norm_calls, key=len, reverse=True):
+            text = text.replace(nc, "<declared>")
+        return text
+
+    nexp = "<declared>"
     want_conds = {f"{nexp} is not None", f"not any((isinstance({VAL_P}, _k0) for _k0 in {nexp}))"}
     alt = {f"not isinstance({VAL_P}, {nexp})": f"not any((isinstance({VAL_P}, _k0) for _k0 in {nexp}))", f"{nexp}": f"{nexp} is not None"}
     fail_conds: Optional[Set[str]] = None
     if leaves is not None and n_ret and all(v in ("PASS", "FAIL") for v, _c in leaves) and any(v == "PASS" for v, _c in leaves):
         fails = [c for v, c in leaves if v == "FAIL"]
         if len(fails) == 1:
-            fail_conds = {txt(c) for c in fails[0]}
+            fail_conds = {canon(txt(c)) for c in fails[0]}
         elif not fails:
             fail_conds = set()
     if fail_conds is not None:
         fail_conds = {alt.get(c, c) for c in fail_conds}
-    R.check(fail_conds == want_conds, r_chk, ORCH, O + "_type_check_entry", "FAIL iff a type is declared and not any(isinstance(value, t))", f"type check does not report FAIL exactly when the value is not an instance of the declared type (FAIL under: {sorted(fail_conds) if fail_conds is not None else 'unrecognised shape'})"[:230], tce.lineno)
+    if fail_conds is not None and len({nc for nc in norm_calls if any(nc in txt(c) for v, cs in (leaves or []) if v == "FAIL" for c in cs)}) > 1:
+        fail_conds = None  # two different derivations of the declared type in one condition: not the shape understood here
+    R.check(fail_conds == want_conds, r_chk, A.rel("type_entry"), TCEQ, "FAIL iff a type is declared and not any(isinstance(value, t))", f"type check does not report FAIL exactly when the value is not an instance of the declared type (FAIL under: {sorted(fail_conds) if fail_conds is not None else 'unrecognised shape'})"[:230], tce.lineno)
     # which type on which data
     for fn, fp, getter, code in ((pre, prep, "input_data_type", "input_type_ok"), (post, postp, "output_data_type", "output_type_ok")):
-        calls = [c for c in calls_in(fn) if call_attr(c) == "_type_check_entry"]
+        calls = A.calls(fn, "type_entry")
         ok = len(calls) == 1
         if ok:
             b = bind_args(calls[0], tce)
@@ -1360,12 +1712,12 @@ def run(repo: Repo, R: Report) -> None:
         R.check(ok, r_chk, ORCH, qualname_of(fn), f"{code}: processor.{getter}() against data", f"{code} does not test the data against the processor's declared {getter}", fn.lineno)
     # call sites: pre with pre snapshot and data before the node; post with a snapshot taken after the node ran and the output data
     for c in calls_in(ex):
-        if call_attr(c) == "_build_pre_checks":
+        if A.is_call(c, "pre_checks"):
             b = bind_args(c, pre)
             use = use_node(c)
             ok = dotted_name(b.get(prep[0])) == NODE and dotted_name(b.get(prep[1])) == PRE and dotted_name(b.get(prep[2])) == DATA and before_run(use)
             R.check(ok, r_chk, ORCH, EXECUTE, "pre-checks built before the node runs, on the pre-node view and input data", "pre-checks are not computed from the state before the node ran", c.lineno)
-        if call_attr(c) == "_build_post_checks":
+        if A.is_call(c, "post_checks"):
             b = bind_args(c, post)
             okv, why = post_view(c, b.get(postp[1]))
             ok = dotted_name(b.get(postp[0])) == NODE and okv and output_data(c, b.get(postp[2]))
@@ -1373,32 +1725,40 @@ def run(repo: Repo, R: Report) -> None:
 
     # ------------------------------------------------------------------ D4 delta
     r_d = R.rule("C07-D4-context-delta", "created = post - pre keys, updated = common keys whose values differ, both sorted; pre snapshot taken before and post snapshot after the node; snapshots are copies", 8)
-    CQ = "DeltaCollector.compute"
-    comp = nfunc(repo, DELTA, CQ, keep=KEEP, loops=True)
+    CQ, CREL = A.qn("compute"), A.rel("compute")
+    comp = A.nf("compute", loops=True, deep=True)  # deep: a computation the method only delegates to (`return _impl(self, ..)`) is looked at where it is
     atoms = name_atoms({PRE_P: "pre", POST_P: "post"})
     rets = [expand(comp, r.value) for r in walk_no_nested(comp) if isinstance(r, ast.Return)]
     rd = rets[0] if len(rets) == 1 and isinstance(rets[0], ast.Dict) else None
     ck = dict_entry(rd, "created_keys") or dict_entry(rd, "created") if rd is not None else None
     uk = dict_entry(rd, "updated_keys") or dict_entry(rd, "updated") if rd is not None else None
     if ck is None or uk is None:
-        raise AnalysisError("DeltaCollector.compute: returned mapping with created_keys / updated_keys not found")
+        raise AnalysisError(f"{CQ}: returned mapping with created_keys / updated_keys not found")
     got = kterm(ck, atoms)
-    R.check(got == ("diff", ("K", "post"), ("K", "pre")), r_d, DELTA, CQ, "created_keys = keys(post) - keys(pre)", f"created keys are not (post keys) minus (pre keys): they are {kshow(got)[:120]}", comp.lineno)
+    R.check(got == ("diff", ("K", "post"), ("K", "pre")), r_d, CREL, CQ, "created_keys = keys(post) - keys(pre)", f"created keys are not (post keys) minus (pre keys): they are {kshow(got)[:120]}", comp.lineno)
     got = kterm(uk, atoms)
     common = ("and", frozenset({("K", "pre"), ("K", "post")}))
+    # the 'same value' test may be a repo function of the two values (checked below), under whatever name
+    cmod = A.mod("compute")
+    eq_fns: List[Tuple[object, ast.AST]] = []
+    for c in [c for c in ast.walk(uk) if isinstance(c, ast.Call) and len(c.args) == 2 and not c.keywords]:
+        t = A.callee(cmod, c, comp)
+        if t is not None and not any(t[1] is f for _m, f in eq_fns):
+            eq_fns.append(t)
     differs = set()
     for a, b in ((PRE_P, POST_P), (POST_P, PRE_P)):
         for fa in ("{m}.get(_k)", "{m}[_k]"):
             for fb in ("{m}.get(_k)", "{m}[_k]"):
-                differs.add(f"not _stable_equal({fa.format(m=a)}, {fb.format(m=b)})")
+                for _m, f in eq_fns:
+                    differs.add(f"not {f.name}({fa.format(m=a)}, {fb.format(m=b)})")
                 differs.add(f"{fa.format(m=a)} != {fb.format(m=b)}")
     base_ok = got[0] == "filter" and got[1] == common
-    R.check(base_ok, r_d, DELTA, CQ, "updated_keys range over keys(post) & keys(pre)", f"updated candidates are not exactly the common keys: {kshow(got[1] if got[0] == 'filter' else got)[:120]}", comp.lineno)
-    R.check(got[0] == "filter" and len(got[2]) == 1 and next(iter(got[2])) in differs, r_d, DELTA, CQ, "updated_keys = common keys whose value differs", f"updated keys are not the common keys whose value changed: {kshow(got)[:140]}", comp.lineno)
-    R.check(is_sorted_expr(ck) and is_sorted_expr(uk), r_d, DELTA, CQ, "created_keys / updated_keys are sorted lists", "the returned key lists are not sorted", comp.lineno)
+    R.check(base_ok, r_d, CREL, CQ, "updated_keys range over keys(post) & keys(pre)", f"updated candidates are not exactly the common keys: {kshow(got[1] if got[0] == 'filter' else got)[:120]}", comp.lineno)
+    R.check(got[0] == "filter" and len(got[2]) == 1 and next(iter(got[2])) in differs, r_d, CREL, CQ, "updated_keys = common keys whose value differs", f"updated keys are not the common keys whose value changed: {kshow(got)[:140]}", comp.lineno)
+    R.check(is_sorted_expr(ck) and is_sorted_expr(uk), r_d, CREL, CQ, "created_keys / updated_keys are sorted lists", "the returned key lists are not sorted", comp.lineno)
     # the 'differs' test itself: equality of the two values under one injective rendering
-    if any(isinstance(c, ast.Call) and call_name(c) == "_stable_equal" for c in ast.walk(uk)):
-        se = repo.func(DELTA, "_stable_equal")
+    for semod, se_raw in eq_fns:
+        se = normalize(repo, semod, se_raw, keep=A.keep())
         sep = pos_params(se)
         se_rets = [x for r in walk_no_nested(se) if isinstance(r, ast.Return) for x in (every_of(se, expand(se, r.value)) or [r.value])]
 
@@ -1413,11 +1773,10 @@ def run(repo: Repo, R: Report) -> None:
                 pa, pb = re.sub(rf"\b{re.escape(sep[1])}\b", hole, a), re.sub(rf"\b{re.escape(sep[0])}\b", hole, b)
             return hole in pa and pa == pb and pa.replace(" ", "") in (hole, f"serialize({hole})", f"sha256_bytes(serialize({hole}))", f"canonical_json_bytes({hole})")
 
-        R.check(bool(se_rets) and all(same_rendering(e) for e in se_rets), r_d, DELTA, "_stable_equal", "_stable_equal(a, b) = (serialize(a) == serialize(b)), fallback a == b", "the test that decides `updated_keys` is not the equality of the two values (under serialize): a changed value can be reported unchanged or an unchanged one as updated", se.lineno)
+        R.check(bool(se_rets) and all(same_rendering(e) for e in se_rets), r_d, semod.rel, qualname_of(se_raw), "_stable_equal(a, b) = (serialize(a) == serialize(b)), fallback a == b", "the test that decides `updated_keys` is not the equality of the two values (under serialize): a changed value can be reported unchanged or an unchanged one as updated", se.lineno)
     # execute: provider diffs the pre snapshot (before) with a fresh post snapshot (at call time, after the node)
-    recv = prov_body.func.value if isinstance(prov_body, ast.Call) and isinstance(prov_body.func, ast.Attribute) else None
-    recv_defs = every_ex.get(recv.id, []) if isinstance(recv, ast.Name) else []
-    ok = is_snapshot(pb.get(POST_P)) and bool(recv_defs) and all(isinstance(v, ast.Call) and call_attr(v) == "DeltaCollector" for v in recv_defs)
+    # the collector (receiver of the computation, or the object handed to it) is a repo object every binding of which is a construction
+    ok = is_snapshot(pb.get(POST_P)) and A.collector is not None and A.collector_class is not None
     R.check(ok, r_d, ORCH, EXECUTE, "delta = DeltaCollector.compute(<pre-node view>, snapshot(context) at call time)", "the delta is not the diff between the pre-node snapshot and the post-node context", ex.lineno)
     def is_provider_call(c: ast.Call) -> bool:
         """`<hooks>.context_delta_provider()` or a call of a local that names that attribute on every path."""
@@ -1435,7 +1794,6 @@ def run(repo: Repo, R: Report) -> None:
     pre_def = [n for n in g.nodes if n.ast is not None and n.kind == "stmt" and isinstance(n.ast, (ast.Assign, ast.AnnAssign)) and any(isinstance(x, ast.Name) and x.id == PRE and isinstance(x.ctx, ast.Store) for x in ast.walk(n.ast))]
     ok = len(pre_def) == 1 and is_snapshot(getattr(pre_def[0].ast, "value", None)) and g.dominated_by_node(sub.id, pre_def[0].id) and before_run(pre_def[0].id) and any(a is loop for a in ancestors(pre_def[0].ast))
     R.check(ok, r_d, ORCH, EXECUTE, "<pre-node view> = snapshot(context) inside the loop, before the node runs", "the pre snapshot is not taken per node before it runs", ex.lineno)
-    snap = repo.func(ORCH, O + "_context_snapshot")
     def fresh_mapping(e: Optional[ast.AST]) -> bool:
         if isinstance(e, ast.IfExp):
             return fresh_mapping(e.body) and fresh_mapping(e.orelse)
@@ -1443,9 +1801,14 @@ def run(repo: Repo, R: Report) -> None:
             return True
         return (isinstance(e, ast.Call) and call_name(e) == "dict") or (isinstance(e, ast.Dict) and (not e.keys or all(k is None for k in e.keys))) or isinstance(e, ast.DictComp)
 
-    rets = [x for n in walk_no_nested(snap) if isinstance(n, ast.Return) for x in (every_of(snap, expand(snap, n.value)) or [n.value])]
-    ok = bool(rets) and all(fresh_mapping(r) for r in rets)
-    R.check(ok, r_d, ORCH, O + "_context_snapshot", "every return is dict(...) or {}", "a snapshot aliases the live context: pre and post views are the same object and the delta is always empty", snap.lineno)
+    if A.has("snapshot"):
+        # normal form with delegation followed: a body moved into a helper (`return _impl(ctx)`) is looked at where it is
+        snap = normalize(repo, A.mod("snapshot"), A.fn("snapshot"), keep=(), deep=True)
+        rets = [x for n in walk_no_nested(snap) if isinstance(n, ast.Return) for x in (every_of(snap, expand(snap, n.value)) or [n.value])]
+        ok = bool(rets) and all(fresh_mapping(r) for r in rets)
+        R.check(ok, r_d, A.rel("snapshot"), A.qn("snapshot"), "every return is dict(...) or {}", "a snapshot aliases the live context: pre and post views are the same object and the delta is always empty", snap.lineno)
+    else:
+        R.violation(r_d, ORCH, EXECUTE, "<pre-node view> = snapshot(context)", "the pre-node view is not produced by a snapshot function of the repo: nothing guarantees that it is a copy of the context taken before the node ran", ex.lineno)
 
     # ------------------------------------------------------------------ D5 digests
     r_dig = R.rule("C07-D5-digests", "input and output data digests come from one helper on the value itself; pre/post context digests are computed from the respective snapshot passed to that call (never copied between entries); the post snapshot is taken after the node ran", 8)
@@ -1455,12 +1818,12 @@ def run(repo: Repo, R: Report) -> None:
         vals += [v for d in ast.walk(fn) if isinstance(d, ast.Dict) for k, v in zip(d.keys, d.values) if is_const(k, "sha256")]
         return " ;; ".join(txt(expand(fn, x)) for v in vals for x in closure(fn, v))
 
-    ds = repo.func(ORCH, O + "_data_summary")
+    ds = A.nf("data_summary")
     dsp = pos_params(ds)
-    R.check(bool(dsp) and f"sha256_bytes(serialize({dsp[0]}))" in digest_text(ds), r_dig, ORCH, O + "_data_summary", "sha256 = sha256_bytes(serialize(data))", "data digest is not the hash of the serialised value", ds.lineno)
-    cs = repo.func(ORCH, O + "_context_summary")
+    R.check(bool(dsp) and f"sha256_bytes(serialize({dsp[0]}))" in digest_text(ds), r_dig, A.rel("data_summary"), A.qn("data_summary"), "sha256 = sha256_bytes(serialize(data))", "data digest is not the hash of the serialised value", ds.lineno)
+    cs = A.nf("context_summary")
     csp = pos_params(cs)
-    R.check(bool(csp) and f"sha256_bytes(canonical_json_bytes({csp[0]}))" in digest_text(cs), r_dig, ORCH, O + "_context_summary", "sha256 = sha256_bytes(canonical_json_bytes(context_view))", "context digest is not the hash of the canonical JSON of the snapshot", cs.lineno)
+    R.check(bool(csp) and f"sha256_bytes(canonical_json_bytes({csp[0]}))" in digest_text(cs), r_dig, A.rel("context_summary"), A.qn("context_summary"), "sha256 = sha256_bytes(canonical_json_bytes(context_view))", "context digest is not the hash of the canonical JSON of the snapshot", cs.lineno)
     cj = repo.func(UTILS, "canonical_json_bytes")
     dumps = [c for c in calls_in(cj) if call_name(c) == "json.dumps"]
     ok = bool(dumps) and isinstance(kwarg(dumps[0], "sort_keys"), ast.Constant) and kwarg(dumps[0], "sort_keys").value is True
@@ -1469,10 +1832,10 @@ def run(repo: Repo, R: Report) -> None:
     serialize_encoders(repo, R, r_enc)
     summ_fns = {}
     summ_roles: Dict[str, Dict[str, Optional[str]]] = {}  # helper -> producer -> the parameter it summarises
-    for helper, keys in (("_init_summaries", {"input_data": "_data_summary", "pre_context": "_context_summary"}), ("_augment_output_summaries", {"output_data": "_data_summary", "post_context": "_context_summary"})):
-        f = repo.func(ORCH, O + helper)
+    for helper, keys in (("init_summaries", {"input_data": "data_summary", "pre_context": "context_summary"}), ("augment_summaries", {"output_data": "data_summary", "post_context": "context_summary"})):
+        f = A.nf(helper)
         summ_fns[helper] = f
-        params = [a.arg for a in f.args.args]
+        params = pos_params(f)
         summ_roles[helper] = {}
         for key, producer in keys.items():
             stores = [n for n in ast.walk(f) if isinstance(n, ast.Assign) and any(isinstance(t, ast.Subscript) and isinstance(t.slice, ast.Constant) and t.slice.value == key for t in n.targets)]
@@ -1480,57 +1843,61 @@ def run(repo: Repo, R: Report) -> None:
             for s in stores:
                 vals = assigned_value(f, s.value.id) if isinstance(s.value, ast.Name) else [s.value]
                 # the summarised value is a parameter of this helper (which one: by role, checked at the call site)
-                prod_fn = repo.func(ORCH, O + producer)
+                prod_fn = A.fn(producer)
                 first = (pos_params(prod_fn) or [""])[0]
                 args0 = {dotted_name(expand(f, bind_args(v, prod_fn)[first])) if isinstance(v, ast.Call) and first in bind_args(v, prod_fn) else None for v in vals}
                 want_arg = next(iter(args0)) if len(args0) == 1 else None
                 summ_roles[helper][producer] = want_arg if want_arg in params and want_arg != "self" else None
-                ok = ok and bool(vals) and want_arg is not None and want_arg in params and want_arg != "self" and all(isinstance(v, ast.Call) and call_attr(v) == producer for v in vals)
+                ok = ok and bool(vals) and want_arg is not None and want_arg in params and want_arg != "self" and all(A.is_call(v, producer) for v in vals)
                 # only gated on the summary being non-empty
                 for a in ancestors(s):
                     if isinstance(a, ast.If) and a is not f:
                         tn = {x.id for x in ast.walk(a.test) if isinstance(x, ast.Name)} - {"len", "bool"}
                         ok = ok and tn <= {dotted_name(s.value) or ""}
-            R.check(ok, r_dig, ORCH, O + helper, f"summaries[{key!r}] = {producer}(this call's value)", f"summaries[{key!r}] is not (always) recomputed from the value passed to this call: stale or copied digests", f.lineno)
+            R.check(ok, r_dig, A.rel(helper), A.qn(helper), f"summaries[{key!r}] = {A.name(producer)}(this call's value)", f"summaries[{key!r}] is not (always) recomputed from the value passed to this call: stale or copied digests", f.lineno)
     for c in calls_in(ex):
-        if call_attr(c) == "_init_summaries":
-            b = bind_args(c, summ_fns["_init_summaries"])
+        if A.is_call(c, "init_summaries"):
+            b = bind_args(c, summ_fns["init_summaries"])
             use = use_node(c)
-            roles = summ_roles["_init_summaries"]
-            ok = dotted_name(b.get(roles.get("_data_summary") or "")) == DATA and dotted_name(b.get(roles.get("_context_summary") or "")) == PRE and before_run(use)
+            roles = summ_roles["init_summaries"]
+            ok = dotted_name(b.get(roles.get("data_summary") or "")) == DATA and dotted_name(b.get(roles.get("context_summary") or "")) == PRE and before_run(use)
             R.check(ok, r_dig, ORCH, EXECUTE, "_init_summaries(<input data>, <pre-node view>, ...)", "input summaries are not taken from the input data and pre snapshot", c.lineno)
-        if call_attr(c) == "_augment_output_summaries":
-            b = bind_args(c, summ_fns["_augment_output_summaries"])
-            roles = summ_roles["_augment_output_summaries"]
-            okv, why = post_view(c, b.get(roles.get("_context_summary") or ""))
-            R.check(okv and output_data(c, b.get(roles.get("_data_summary") or "")), r_dig, ORCH, EXECUTE, f"_augment_output_summaries(.., <output data>, <post-node view>, ..) ({'failure handler' if in_handler(c) else 'success path'})", "output summaries are not taken from the output data and a context snapshot taken after the node ran" + (f": {why}" if why else ""), c.lineno)
+        if A.is_call(c, "augment_summaries"):
+            b = bind_args(c, summ_fns["augment_summaries"])
+            roles = summ_roles["augment_summaries"]
+            okv, why = post_view(c, b.get(roles.get("context_summary") or ""))
+            R.check(okv and output_data(c, b.get(roles.get("data_summary") or "")), r_dig, ORCH, EXECUTE, f"_augment_output_summaries(.., <output data>, <post-node view>, ..) ({'failure handler' if in_handler(c) else 'success path'})", "output summaries are not taken from the output data and a context snapshot taken after the node ran" + (f": {why}" if why else ""), c.lineno)
 
     # ------------------------------------------------------------------ D6 durations, D7 ref
     r_misc = R.rule("C07-D6D7-duration-and-ref", "wall_ms/cpu_ms = int((now - start) * 1000) with start read by _start_timing; processor.ref is module.qualname of node.processor's class for the node that ran", 9)
-    et = nfunc(repo, ORCH, O + "_end_timing", keep=KEEP)
-    st = nfunc(repo, ORCH, O + "_start_timing", keep=KEEP)
+    for role in ("start_timing", "end_timing"):
+        if not A.has(role):
+            raise AnalysisError(f"execute(): the timing helper in the role `{role}` was not found (the violation is reported under C07-D1)")
+    et = A.nf("end_timing")
+    st = A.nf("start_timing")
+    ETQ, STQ = A.qn("end_timing"), A.qn("start_timing")
     etp = pos_params(et)
     et_ret = [v for v in (expand(et, r.value) for r in walk_no_nested(et) if isinstance(r, ast.Return)) if isinstance(v, ast.Tuple) and len(v.elts) == 3]
     st_ret = [v for v in (expand(st, r.value) for r in walk_no_nested(st) if isinstance(r, ast.Return)) if isinstance(v, ast.Tuple) and len(v.elts) == 3]
     if len(etp) < 2 or len(et_ret) != 1 or len(st_ret) != 1:
-        raise AnalysisError("_start_timing/_end_timing: 3-tuple returns or start parameters vanished")
+        raise AnalysisError(f"{STQ}/{ETQ}: 3-tuple returns or start parameters vanished")
     for label, idx, clock, pidx in (("wall_ms", 1, "time.time", 0), ("cpu_ms", 2, "time.process_time", 1)):
         v = expand(et, et_ret[0].elts[idx])
         subs = [b for b in ast.walk(v) if isinstance(b, ast.BinOp) and isinstance(b.op, ast.Sub)]
         ok = len(subs) == 1 and isinstance(subs[0].left, ast.Call) and call_name(subs[0].left) == clock and not subs[0].left.args and dotted_name(subs[0].right) == etp[pidx]
-        R.check(ok, r_misc, ORCH, O + "_end_timing", f"{label} = int(({clock}() - <start>) * 1000)", f"{label} is not end minus start of the matching clock", et.lineno)
+        R.check(ok, r_misc, A.rel("end_timing"), ETQ, f"{label} = int(({clock}() - <start>) * 1000)", f"{label} is not end minus start of the matching clock", et.lineno)
         sv = expand(st, st_ret[0].elts[pidx])
-        R.check(isinstance(sv, ast.Call) and call_name(sv) == clock and not sv.args, r_misc, ORCH, O + "_start_timing", f"start[{pidx}] = {clock}()", f"the start value for {label} is not read from {clock}()", st.lineno)
+        R.check(isinstance(sv, ast.Call) and call_name(sv) == clock and not sv.args, r_misc, A.rel("start_timing"), STQ, f"start[{pidx}] = {clock}()", f"the start value for {label} is not read from {clock}()", st.lineno)
 
     for c in calls_in(ex):
-        if call_attr(c) == "_end_timing":
+        if A.is_call(c, "end_timing"):
             b = bind_args(c, et)
-            ok = unpack_of(b.get(etp[0]), "_start_timing", 0, exclusive=False) and unpack_of(b.get(etp[1]), "_start_timing", 1, exclusive=False)
+            ok = unpack_of(b.get(etp[0]), "start_timing", 0, exclusive=False) and unpack_of(b.get(etp[1]), "start_timing", 1, exclusive=False)
             R.check(ok, r_misc, ORCH, EXECUTE, f"_end_timing(<start wall>, <start cpu>) from _start_timing() ({'failure handler' if in_handler(c) else 'success path'})", "durations are not measured from the values read by _start_timing()", c.lineno)
-        if call_attr(c) == "_make_ser_record":
-            ok = timing_entry_ok(c, "wall_ms", "_end_timing", 1, True) and timing_entry_ok(c, "cpu_ms", "_end_timing", 2, True)
-            R.check(ok, r_misc, ORCH, EXECUTE, f"SER ({getattr(kwarg(c, 'status'), 'value', '?')}): timing.wall_ms / cpu_ms from _end_timing()", "SER durations do not come from _end_timing()", c.lineno)
-    node_kw = {kw.arg for c in calls_in(ex) if call_attr(c) == "_make_ser_record" for kw in c.keywords if dotted_name(kw.value) == NODE}
+    for c in A.record_calls:
+        ok = timing_entry_ok(c, "wall_ms", "end_timing", 1, True) and timing_entry_ok(c, "cpu_ms", "end_timing", 2, True)
+        R.check(ok, r_misc, ORCH, EXECUTE, f"SER ({status_of(c)}): timing.wall_ms / cpu_ms from _end_timing()", "SER durations do not come from _end_timing()", c.lineno)
+    node_kw = {p for c in A.record_calls for p, v in bind_args(c, mk).items() if dotted_name(v) == NODE}
     NK = next(iter(node_kw)) if len(node_kw) == 1 else None
     ref = dict_entry(proc, "ref")
     tags = expand(mk, kwarg(ser_calls[0], "tags")) if ser_calls else None
@@ -1544,20 +1911,20 @@ def run(repo: Repo, R: Report) -> None:
         s = ast.unparse(e).replace(f"type({NK}.processor)", f"{NK}.processor.__class__")
         return s in (f"f'{{{NK}.processor.__class__.__module__}}.{{{NK}.processor.__class__.__qualname__}}'", f"{NK}.processor.__class__.__module__ + '.' + {NK}.processor.__class__.__qualname__")
 
-    R.check(names_class(ref) and (dict_entry(tags, "node_ref") is None or names_class(dict_entry(tags, "node_ref"))), r_misc, ORCH, O + "_make_ser_record", "processor.ref = f'{node.processor.__class__.__module__}.{...__qualname__}'", "processor.ref does not name the class of the processor object that ran", mk.lineno)
+    R.check(names_class(ref) and (dict_entry(tags, "node_ref") is None or names_class(dict_entry(tags, "node_ref"))), r_misc, A.rel("record"), A.qn("record"), "processor.ref = f'{node.processor.__class__.__module__}.{...__qualname__}'", "processor.ref does not name the class of the processor object that ran", mk.lineno)
     R.check(NODE in {x.id for x in ast.walk(loop.target) if isinstance(x, ast.Name)}, r_misc, ORCH, EXECUTE, "the node that runs is the loop's current node", "the node callable does not run the loop's current node", loop.lineno)
-    for c in calls_in(ex):
-        if call_attr(c) == "_make_ser_record":
-            R.check(NK is not None and dotted_name(kwarg(c, NK)) == NODE, r_misc, ORCH, EXECUTE, f"_make_ser_record(node=<the node that ran>) ({getattr(kwarg(c, 'status'), 'value', '?')})", "the SER is built for a different node object than the one that ran", c.lineno)
+    for c in A.record_calls:
+        if True:
+            R.check(NK is not None and dotted_name(bind_args(c, mk).get(NK)) == NODE, r_misc, ORCH, EXECUTE, f"_make_ser_record(node=<the node that ran>) ({status_of(c)})", "the SER is built for a different node object than the one that ran", c.lineno)
 
     # ------------------------------------------------------------------ D8 node-local facts
     r_loc = R.rule("C07-D8-node-local-facts", "what a SER says about a node is computed from that node, its configuration, data and pre/post context: the per-node path of execute() (loop body and everything it calls in the execution / trace packages) reads no instance attribute that the same path writes (memo, counter, remembered view) - such a cell carries an earlier node's or run's answer into a later record", 12)
-    node_local_facts(repo, R, r_loc, ex, loop)
+    node_local_facts(repo, R, r_loc, ex, loop, (A.rel("compute"), A.fn("compute")))
     from . import c04_rest
 
     R.rule_prefix = "C07-D8/"
     try:
-        sl = [(omod_rel, qualname_of(f), f) for omod_rel, f in per_node_roots(repo, loop)]
+        sl = [(omod_rel, qualname_of(f), f) for omod_rel, f in per_node_roots(repo, loop, (A.rel("compute"), A.fn("compute")))]
         c04_rest.no_process_state(repo, R, sl)
         R.minimum["C07-D8/C04-D3a-no-process-state"] = 12
     finally:
